@@ -88,7 +88,7 @@ def operand(tag: str, bases: List[Any], pbase: int) -> Any:
 
 REAL_BASE_SETS = [
     ["meter", "foot", "inch"], ["meter", "second", "kilogram"], ["pound-force", "meter", "second"],
-    ["acre", "foot", "liter"], ["jansky", "second", "meter"], ["coulomb", "second", "volt"],
+    ["acre", "foot", "liter"], ["jansky", "second", "meter"], ["coulomb", "second", "kelvin"],
 ]
 
 
